@@ -183,6 +183,8 @@ pub enum Payload {
     Text,
     Random,
     RandomThenZeros,
+    /// one full BGZF block (65495 bytes) that DEFLATE cannot shrink, then zeros
+    RandomBlockThenZeros,
 }
 
 pub fn payload_byte(class: Payload, i: u64) -> u8 {
@@ -198,6 +200,13 @@ pub fn payload_byte(class: Payload, i: u64) -> u8 {
         Payload::Zeros => 0,
         Payload::Text => b"ACGTNacgtn \tqwertyuiopasdfghjklzxcvbnm0123456789@=+-*/_.,;:!?#$\n"[(i % 61) as usize],
         Payload::Random => rnd(i),
+        Payload::RandomBlockThenZeros => {
+            if i < 65495 {
+                rnd(i)
+            } else {
+                0
+            }
+        }
         Payload::RandomThenZeros => {
             if i % 131072 < 60000 {
                 rnd(i)
